@@ -86,6 +86,39 @@ def oracle(spec, ops):
 
 
 
+def _cast_sensitive_measures(arch, spec, rng):
+    """a float64 measure vector m with index_of_single(m) != index_of_single(float32(m)), or None: bisect between two points of
+    different cells and probe both sides of the crossing at sub-float32-ulp distances"""
+    nd = len(spec["ranges"])
+    pt = lambda: np.array([rng.uniform(lo, hi) for lo, hi in spec["ranges"]], dtype=np.float64)
+    for _ in range(6):
+        a, b = pt(), pt()
+        if rng.random() < 0.7 and nd > 1:           # cross one border only
+            j = rng.randrange(nd)
+            b = np.where(np.arange(nd) == j, b, a)
+        ia, ib = int(arch.index_of_single(a)), int(arch.index_of_single(b))
+        if ia == ib:
+            continue
+        for _ in range(70):
+            mid = (a + b) / 2
+            if np.array_equal(mid, a) or np.array_equal(mid, b):
+                break
+            if int(arch.index_of_single(mid)) == ia:
+                a = mid
+            else:
+                b = mid
+        for base in (a, b):
+            for k in (0, 1, 3, 10, 100, 1000, 100000):
+                m = base + (base - (b if base is a else a)) * k
+                if not all(lo <= x <= hi for x, (lo, hi) in zip(m, spec["ranges"])):
+                    continue
+                i64 = int(arch.index_of_single(m))
+                i32 = int(arch.index_of_single(m.astype(np.float32)))
+                if i64 != i32:
+                    return m
+    return None
+
+
 def wide_input_cases(rep, rng, n):
     """add_single must agree with add on a batch of one ALSO when the caller passes objectives wider than the archive's dtype
     (float64 values into a float32 archive): candidates are placed within a fraction of a float32 ulp around the live threshold."""
@@ -108,6 +141,15 @@ def wide_input_cases(rep, rng, n):
         ulp32 = float(np.spacing(np.float32(abs(thr) if thr else 1.0)))
         obj = thr + rng.choice([0.25, 0.4, -0.25, -0.4, 0.0, 0.6, -0.6]) * ulp32     # a float64 that is (mostly) not a float32
         mea = np.asarray(d["measures"][k], dtype=np.float64)
+        if rng.random() < 0.5:
+            # ... and measures wider than the archive's dtype: a float64 point whose cell differs from the cell of its float32 rounding
+            # (found by bisection across a cell border); both paths must judge the cell index_of gives for the caller's values
+            m2 = _cast_sensitive_measures(a1, spec, rng)
+            if m2 is not None:
+                mea = m2
+                rep.count("wide_measure_cases")
+                if rng.random() < 0.5:
+                    obj = float(rng.randrange(-64, 65)) / 8.0
         sol = np.zeros(spec["sol_dim"])
         i1 = a1.add(sol[None], np.array([obj], dtype=np.float64), mea[None])
         i2 = a2.add_single(sol, obj, mea)
@@ -125,8 +167,8 @@ def wide_input_cases(rep, rng, n):
             return np.array_equal(c1[f], c2[f])
         same = s1 == s2 and v1 == v2 and all(same_field(f) for f in c1)
         if not same:
-            rep.violation("add on a batch of one and add_single disagree for a float64 objective in a float32 archive: objective %r, cell threshold %r: "
-                          "add -> status %d value %r, add_single -> status %d value %r" % (obj, thr, s1, v1, s2, v2),
+            rep.violation("add on a batch of one and add_single disagree for float64 arguments in a float32 archive: objective %r, measures %r, cell threshold %r: "
+                          "add -> status %d value %r, add_single -> status %d value %r" % (obj, mea.tolist(), thr, s1, v1, s2, v2),
                           {"kind": "property", "broken": "C02_single_eq_batch1 (add_single agrees with add on a batch of one)",
                            "case": {"spec": spec, "prefix": prefix, "objective_hex": float(obj).hex(), "measures": mea.tolist(), "threshold": thr}},
                           True, {"kind": "batch-single-dtype-cast"})
